@@ -121,6 +121,7 @@ class Translator:
         self.groups = {}
         self.tree = P.parse(self.src, flags)
         self.at_end = False  # pattern ends with $ (non-multiline)
+        self.at_begin = False  # pattern starts with ^
 
     def tr_seq(self, seq, top=False):
         out = []
@@ -142,6 +143,7 @@ class Translator:
             if op is C.AT:
                 nm = str(av)
                 if top and i == 0 and nm.endswith("AT_BEGINNING"):
+                    self.at_begin = True
                     continue
                 if top and i == len(items) - 1 and nm.endswith("AT_END"):
                     self.at_end = True
@@ -206,6 +208,21 @@ class Translator:
 
 def fullmatch_re(pattern, flags=0):
     return Translator(pattern, flags).fullmatch()
+
+
+def search_language(cre, trailing_newline=False):
+    """Language of the strings x for which cre.search(x) is not None (anchors honoured)."""
+    tr = Translator(cre.pattern, cre.flags & (re.IGNORECASE | re.DOTALL))
+    body = tr.fullmatch()
+    parts = []
+    if not tr.at_begin:
+        parts.append(SIGMA_STAR)
+    parts.append(body)
+    if not tr.at_end:
+        parts.append(SIGMA_STAR)
+    elif trailing_newline:
+        parts.append(z3.Option(lit("\n")))
+    return concat(*parts)
 
 
 def compiled_fullmatch(cre):
